@@ -86,7 +86,7 @@ func wirePass(c *vh.Ctx) {
 			fn := byte(r.Intn(256))
 			w := false
 			it := fr.RandItem(r, 3)
-			if r.Intn(10) == 0 {
+			if r.Intn(40) == 0 {
 				it = secs2.B(anyBytes(60000 + r.Intn(10000))...)
 			}
 			msgSid := sid
